@@ -88,6 +88,9 @@ def check_build(case):
             yield t
     if bytes(libx.call('build-generator', CScript, gen_())[1]) != want:
         raise Violation('build/generator', 'CScript(generator of tokens), with other scripts built meanwhile, differs from CScript(list of tokens)')
+    alt = [bytearray(t) if isinstance(t, bytes) and k_ % 2 == 0 else t for k_, t in enumerate(libtoks)]
+    if bytes(libx.call('build-bytearray-tokens', CScript, alt)[1]) != want:
+        raise Violation('build/bytearray-token', 'a data token given as bytearray builds differently from the same bytes')
     if bytes(libx.call('build-tuple', CScript, tuple(libtoks))[1]) != want:
         raise Violation('build/tuple', 'CScript(tuple of tokens) differs from CScript(list of tokens)')
     return {'nt': len(toks) >= 2, 'cls': ['build'], 'evals': 7}
